@@ -352,7 +352,9 @@ class Check(PropertyCheck):
                               [[at.path(q[0]), [at.to[x] for x in q[1]], at.path(q[2])] for q in p['queries']]]))
         mo_res = [] if oracle_only else self.model('names', wires)
         for k, p in enumerate(live):
-            self.evaluations += 1
+            # one evaluation = one (project, scope, name) query put to pydoctor, the model and CPython
+            self.evaluations += max(1, len([q for q in p['queries'] if q[3] is not None]))
+            self.count('projects')
             pr = pd_res[k]
             case = {'project': strip(p)}
             if 'error' in pr:
